@@ -923,7 +923,16 @@ def run_impl(binary, progs, ck):
         return p, inp
 
     pending = [c for c in chunks if c]
+    deaths = 0
     while pending:
+        if deaths > 6:
+            # the engine keeps dying / timing out: stop, the cases seen so far are reported
+            for idxs in pending:
+                for i in idxs:
+                    if results[i] is None:
+                        results[i] = {"out": "", "outcome": "skipped"}
+            ck.broken.append("engine-deaths")
+            break
         procs = [(idxs,) + launch(idxs) for idxs in pending]
         pending = []
         for idxs, p, inp in procs:
@@ -938,6 +947,7 @@ def run_impl(binary, progs, ck):
             if len(lines) < len(idxs):
                 # the engine died on case idxs[len(lines)] (fatal error / timeout): attribute it, go on after it
                 bad = idxs[len(lines)]
+                deaths += 1
                 if results[bad] is None:
                     results[bad] = {"out": "", "outcome": "died", "detail": (err or "")[-300:]}
                 rest = idxs[len(lines) + 1:]
@@ -1010,6 +1020,8 @@ def main(ck):
     for i, (c, o) in enumerate(zip(cases, obs)):
         oc = o["outcome"] if o else "missing"
         outcome_hist[oc] = outcome_hist.get(oc, 0) + 1
+        if oc == "skipped":
+            continue
         if oc not in ("ok", "throw"):
             # parse failure, Go panic, death or timeout on a generated core program: a crash is data —
             # the reference semantics gives every such program an output, so this is a violation
